@@ -217,7 +217,12 @@ def main():
                 if res is not None:
                     replayed += 1
                     repro, rep = res
-                    if not repro:
+                    if not repro and h.get("native_partial"):
+                        # the native replay harness cannot rebuild every part of the model (e.g. request documents):
+                        # the violation is reported from the interpreter-level replay and marked as such
+                        notes.append("%s: %s not reproduced by the (partial) native replay; reported from the symbolic run" % (h["name"], v["label"]))
+                        replayed -= 1
+                    elif not repro:
                         problems.append("%s: ENCODING-MISMATCH: model for %s does not reproduce natively (%s)" % (h["name"], v["label"], rep))
                         continue
             if rep is None:
